@@ -320,6 +320,13 @@ class Check:
         self.rule = ""
         self.extra = {}
         self.exhaustive = False
+        # stale replay files of earlier runs of this property are removed
+        import glob
+        for f in glob.glob(os.path.join(REPLAYS, pid + "-*")):
+            try:
+                os.remove(f)
+            except OSError:
+                pass
 
     def add_tlc(self, r):
         self.states += r.distinct
